@@ -635,7 +635,7 @@ def _run(cdir, seed, tier, root, log):
              "\t\t\tgo func() { ch <- e.stress(8, 150, false) }()",
              "\t\t\tselect { case s := <-ch: fmt.Printf(\"%s\\t%s\\n\", e.name, s); case <-time.After(20 * time.Second): fmt.Printf(\"%s\\tDEADLOCK: stress did not finish in 20s\\n\", e.name); hung++; continue }",
              "\t\t\tif e.resets {",
-             "\t\t\t\tgo func() { ch <- e.stress(6, 100, true) }()",
+             "\t\t\t\tgo func() { ch <- e.stress(8, 1200, true) }()",
              "\t\t\t\tselect { case s := <-ch: if s != \"\" { fmt.Printf(\"%s\\t%s\\n\", e.name, s) }; case <-time.After(20 * time.Second): fmt.Printf(\"%s\\tDEADLOCK: stress with resets did not finish in 20s\\n\", e.name); hung++ }",
              "\t\t\t}",
              "\t\t}", "\t}", "}"]
